@@ -174,7 +174,7 @@ def correspondence(ctx, texts, results, rtab, tag):
     step = 500
     for s in range(0, len(texts), step):
         body = ';\n'.join('(%s, %s)' % (g_str(t), lit(r)) for t, r in zip(texts[s:s + step], results[s:s + step]))
-        shards.append(hdr + 'Definition cases := [\n%s\n].\nEval vm_compute in mism 0 cases.\n' % body)
+        shards.append(hdr + 'Definition cases : list (str * ures qv) := [\n%s\n].\nEval vm_compute in mism 0 cases.\n' % body)
     bad = []
     for k, (ok, out) in enumerate(vlib.run_cases_sharded('c10_' + tag, shards, timeout=1200)):
         val = vlib.coq_eval_value(out) if ok else None
